@@ -656,7 +656,7 @@ static Result run_c19_inv(const Case &c) {
     {   // the instance is destroyed before the leak check
         int d = in.desc; in.desc = -1; liberasurecode_instance_destroy(d);
     }
-    if (__lsan_do_recoverable_leak_check() != 0) r.fail("LeakSanitizer: memory still allocated after a failed inversion");
+    if (__lsan_do_recoverable_leak_check() != 0 && (r.fatal = true)) r.fail("LeakSanitizer: memory still allocated after a failed inversion");
     return r;
 }
 static Case gen_c19_inv() {
